@@ -93,6 +93,17 @@ def load(repo="/repo"):
     return types, props
 
 
+def all_type_names(repo="/repo"):
+    """every class name of every vocabulary, with repetitions (load() keys by name and would hide a clash)"""
+    out = []
+    for fn, prefix, impldir, uri in VOCABS:
+        doc = json.load(open(os.path.join(repo, "astool", fn)))
+        for m in members_of(doc):
+            if is_class(m) and not is_property(m):
+                out.append(m["name"])
+    return out
+
+
 def closure(types):
     anc = {}
     def up(t, seen):
@@ -172,28 +183,42 @@ def emit_c13(types, anc, desc, disj, out):
 
 def emit_c14(types, out):
     """C14: which callback signature belongs to which (vocabulary URI, type name): derived from the ontology
-    files only.  specfuns are expanded where the contracts in /repo/streams/verif_contracts.go use them."""
+    files only.  specfuns are expanded where the contracts in /repo/streams/verif_contracts.go use them.
+    Types are numbered 1..n in name order; 0 = not a type the vocabularies define."""
     ts = sorted(types)
     def iface(t):
         return "streams/vocab.%s%s" % (types[t]["vocab"], t)
     def own(o, t):
-        return '%s.VocabularyURI() == "%s" && %s.GetTypeName() == "%s"' % (o, types[t]["uri"], o, t)
-    L = ["# GENERATED on every run by /verif/oracle/ontology.py from /repo/astool/*.jsonld -- C14 tables", ""]
-    L.append("specfun knownType(o) = " + " || ".join("(%s)" % own("o", t) for t in ts))
-    L.append("specfun ownCallback(cb, o) = " + " || ".join('(%s && cb.dyn == functag("%s"))' % (own("o", t), iface(t)) for t in ts))
-    L.append("specfun ownPredicate(cb, o) = " + " || ".join('(%s && cb.dyn == predtag("%s"))' % (own("o", t), iface(t)) for t in ts))
-    L.append("specfun implementsOwn(o) = " + " || ".join('(%s && implements(o, "%s"))' % (own("o", t), iface(t)) for t in ts))
-    L.append("specfun legalCallback(cb) = " + " || ".join('cb.dyn == functag("%s")' % iface(t) for t in ts))
-    L.append("specfun legalPredicate(cb) = " + " || ".join('cb.dyn == predtag("%s")' % iface(t) for t in ts))
-    # JSON input: the value's own type is named by "<alias>:<Name>" (or the bare name when its vocabulary has no alias)
+        return '(%s.VocabularyURI() == "%s" && %s.GetTypeName() == "%s")' % (o, types[t]["uri"], o, t)
     def alias(t):
         rest = types[t]["uri"].split("://", 1)[1]
-        return '(has(aliasMap, "https://%s") ? aliasMap["https://%s"] : aliasMap["http://%s"])' % (rest, rest, rest)
+        return '(has(aliasMap, "https://%s") ? aliasMap["https://%s"] : (has(aliasMap, "http://%s") ? aliasMap["http://%s"] : ""))' % (rest, rest, rest, rest)
     def jsonname(t):
         a = alias(t)
-        return '(typeString == (len(%s) > 0 ? %s + ":" : "") + "%s")' % (a, a, t)
-    L.append("specfun jsonKnownType(typeString, aliasMap) = " + " || ".join(jsonname(t) for t in ts))
-    L.append("specfun jsonOwnCallback(cb, typeString, aliasMap) = " + " || ".join('(%s && cb.dyn == functag("%s"))' % (jsonname(t), iface(t)) for t in ts))
+        return '(typeString == (len(%s) > 0 ? %s + ":" : %s) + "%s")' % (a, a, a, t)
+    def chain(cond, val, default):
+        e = default
+        for k in range(len(ts), 0, -1):
+            e = "(%s ? %s : %s)" % (cond(ts[k - 1], k), val(ts[k - 1], k), e)
+        return e
+    L = ["# GENERATED on every run by /verif/oracle/ontology.py from /repo/astool/*.jsonld -- C14 tables", ""]
+    # typed values: the value's own type is the one whose vocabulary URI and name it reports
+    L.append("specfun typeIndex(o) = " + chain(lambda t, k: own("o", t), lambda t, k: str(k), "0"))
+    # JSON input: the value's own type is named by "<alias>:<Name>" (or the bare name when its vocabulary has no alias);
+    # jsonTypeIndex is the FIRST type whose spelling matches; by the lemma checked by `ontology.py c14` (type names
+    # are unique and contain no ':') at most one spelling can match, so "first" = "the".
+    L.append("specfun jsonTypeIndex(typeString, aliasMap) = " + chain(lambda t, k: jsonname(t), lambda t, k: str(k), "0"))
+    L.append("specfun callbackTagOf(i) = " + chain(lambda t, k: "i == %d" % k, lambda t, k: 'functag("%s")' % iface(t), "0 - 1"))
+    L.append("specfun predicateTagOf(i) = " + chain(lambda t, k: "i == %d" % k, lambda t, k: 'predtag("%s")' % iface(t), "0 - 1"))
+    L.append("specfun implementsIndexed(o, i) = " + chain(lambda t, k: "i == %d" % k, lambda t, k: 'implements(o, "%s")' % iface(t), "false"))
+    L.append("specfun legalCallback(cb) = " + " || ".join('cb.dyn == functag("%s")' % iface(t) for t in ts))
+    L.append("specfun legalPredicate(cb) = " + " || ".join('cb.dyn == predtag("%s")' % iface(t) for t in ts))
+    L.append("fun deserFn (Int) Int")
+    for k, t in enumerate(ts):
+        # assumed naming: the function value returned by Manager.Deserialize<Name><Vocab>() is deserFn(k)
+        L.append("func (streams.Manager).Deserialize%s%s" % (t, types[t]["vocab"]))
+        L.append("  trusted")
+        L.append("  ensures result == deserFn(%d) && result != nil" % (k + 1))
     open(out, "w").write("\n".join(L) + "\n")
 
 
@@ -208,10 +233,18 @@ if __name__ == "__main__":
                               pairs=len(types) ** 2)))
     elif sys.argv[1] == "c14":
         emit_c14(types, sys.argv[3])
-        names = {}
-        for t in types:
-            names.setdefault(t, []).append(types[t]["vocab"])
-        print(json.dumps(dict(types=len(types), vocabularies=sorted(set(types[t]["uri"] for t in types)), lemma_failures=[])))
+        bad = []
+        # lemma behind jsonTypeIndex: a "type" string "<prefix><Name>" (prefix empty or ending in ':') determines Name
+        seen = {}
+        for raw in all_type_names(repo):
+            if ":" in raw:
+                bad.append("type name contains ':': " + raw)
+            if raw in seen:
+                bad.append("type name defined twice across vocabularies: " + raw)
+            seen[raw] = True
+        if len(seen) != len(types):
+            bad.append("type table has %d entries but the ontologies define %d names" % (len(types), len(seen)))
+        print(json.dumps(dict(types=len(types), vocabularies=sorted(set(types[t]["uri"] for t in types)), lemma_failures=bad)))
     elif sys.argv[1] == "dump":
         print(json.dumps(dict(types={t: dict(types[t], anc=sorted(anc[t]), desc=sorted(desc[t]), disj=sorted(disj[t])) for t in types},
                               props={p: {k: v for k, v in props[p].items() if k != "raw_range"} for p in props}), indent=1))
